@@ -1051,9 +1051,19 @@ fn gen_cases(seed: u64, thorough: bool) -> Vec<String> {
                 let vsize = if thorough { *rng.pick(&[8 * MIB, 12 * MIB, 24 * MIB, 32 * MIB]) } else { *rng.pick(&[8 * MIB, 10 * MIB]) } + rng.below(5000) as usize;
                 let totals: Vec<Vec<usize>> = (0..nw).map(|t| if t == 0 { vec![vsize] } else { (0..rng.range(1, 3)).map(|_| 48 + 16 + rng.below(1500) as usize).collect() }).collect();
                 // client: the victim starts a little after the others; servers: its position among the requests
-                let vdelay = if ep == "client" { [0, 3, 10, 30][j] } else { rng.below(5) };
+                // servers: the interrupted response is sometimes the LAST of the pipeline (0xff: nothing
+                // is pending behind it, so only the probes sent after the stall can land behind a torn frame)
+                let vdelay = if ep == "client" { [0, 3, 10, 30][j] } else if j == 3 { 0xff } else { rng.below(5) };
                 out.push(case_line(0, ep, "stall", &totals, &kinds, 200, 4096, 900, Some(0), 0, vdelay, rng.next() & 0xffff_ffff));
             }
+        }
+        // (2'') blocking client, stalled peer, write timeout, hundreds of frames that each fit the
+        // 8 KiB write buffer: the timeout fires in a flush (or with a frame half queued), not inside
+        // one large body
+        for _ in 0..(if thorough { 2 } else { 1 }) {
+            let kinds = vec!['n'];
+            let totals: Vec<Vec<usize>> = vec![(0..520).map(|_| match rng.below(4) { 0 => 8192, 1 => 8191, _ => 7800 + rng.below(392) as usize }).collect()];
+            out.push(case_line(0, "client", "stall", &totals, &kinds, 150, 4096, 1200, None, 0, 0, rng.next() & 0xffff_ffff));
         }
         // (2') stalled peer, no write timeout: the write just waits
         for ep in eps {
